@@ -1056,6 +1056,11 @@ class Interp:
             if isinstance(a, (int, float)):
                 return math.sqrt(a)
             return self.world.sym_unop("sqrt", a)
+        if bn == "std::reverse" and len(args_n) == 2:
+            a, b = V(0), V(1)
+            if isinstance(a, Iter) and isinstance(b, Iter) and a.seq is b.seq and a.step == 1:
+                a.seq[a.pos:b.pos] = a.seq[a.pos:b.pos][::-1]
+                return None
         if bn == "__assert_fail":
             raise ThrowEx(e, "assertion failed: " + pp(args_n[0]), fr.fn.loc(e))
         if bn == "std::make_pair":
